@@ -825,6 +825,20 @@ func runOp(c driver.Case) driver.Result {
 		func() { defer func() { recover() }(); sub.Unsubscribe() }()
 		quiesce.Settle(time.Second)
 	}
+	// a library goroutine deadlocked on a mutex explains whatever was not released: name the deadlock
+	// (hand-off operators run the release on their own goroutine, where the harness call does not hang)
+	if leaked := libGoroutinesSince(before); settled && len(leaked) > 0 {
+		var b strings.Builder
+		for _, g := range leaked {
+			b.WriteString(g.Stack + "\n\n")
+		}
+		if site := quiesce.BlockedSite(b.String()); strings.HasSuffix(site, "(mutex)") {
+			res.Verdict, res.Key, res.Dirty = driver.Violated, "C03/hang/"+site, true
+			res.Msg = fmt.Sprintf("%s: a goroutine of the pipeline is deadlocked while releasing it (%s); %d goroutine(s) remain", what, site, len(leaked))
+			res.Witness = b.String()
+			return res
+		}
+	}
 	if !checkSources(srcs, what, fam, &res) {
 		return res
 	}
